@@ -1029,3 +1029,44 @@ fn p1_page(page: Page<Size4KiB>, recursive_index: PageTableIndex) -> Page {
         page.p2_index(),
     )
 }
+
+/// Verification-only accessors (feature `verif_hooks`): expose the recursive table-page
+/// computations so that they can be checked as pure functions for all 512 recursive indices.
+#[cfg(feature = "verif_hooks")]
+#[doc(hidden)]
+pub mod verif_hooks {
+    use super::*;
+
+    /// Page through which the level 3 table of `page` is reached.
+    pub fn p3_page_of<S: PageSize>(page: Page<S>, recursive_index: PageTableIndex) -> Page {
+        super::p3_page(page, recursive_index)
+    }
+
+    /// Page through which the level 2 table of `page` is reached.
+    pub fn p2_page_of<S: NotGiantPageSize>(page: Page<S>, recursive_index: PageTableIndex) -> Page {
+        super::p2_page(page, recursive_index)
+    }
+
+    /// Page through which the level 1 table of `page` is reached.
+    pub fn p1_page_of(page: Page<Size4KiB>, recursive_index: PageTableIndex) -> Page {
+        super::p1_page(page, recursive_index)
+    }
+
+    /// Pointer through which the level 3 table of `page` is reached.
+    pub fn p3_ptr_of<S: PageSize>(page: Page<S>, recursive_index: PageTableIndex) -> *mut PageTable {
+        super::p3_ptr(page, recursive_index)
+    }
+
+    /// Pointer through which the level 2 table of `page` is reached.
+    pub fn p2_ptr_of<S: NotGiantPageSize>(
+        page: Page<S>,
+        recursive_index: PageTableIndex,
+    ) -> *mut PageTable {
+        super::p2_ptr(page, recursive_index)
+    }
+
+    /// Pointer through which the level 1 table of `page` is reached.
+    pub fn p1_ptr_of(page: Page<Size4KiB>, recursive_index: PageTableIndex) -> *mut PageTable {
+        super::p1_ptr(page, recursive_index)
+    }
+}
